@@ -1,16 +1,20 @@
 import BytomModel.Model.TxValidate
+import BytomModel.Model.TxEntries
 import BytomModel.Drv.Util
 /- driver mode c01.
    op:   tx <blockVersion> <blockHeight> <first 0|1> <txVersion> <size> <timeRange> <hint> <nIn> <in>* <nOut> <out>*
          in  = <s|i|v|c>:<asset>:<amount>:<vmOk 0|1>:<vmCost>:<x>:<id>
          out = <o|v|r>:<asset>:<amount>:<voteLen>
+         optional tail `M <field> <index> <args>`: ONE field of ONE entry of the mapped transaction was changed
+         in place before validation (pv wd wdpos wdref ms mspos msref | ov srcpos srcref dv dstpos dstref);
+         the answer is then `validateE` on the mutated entry graph (Model/TxEntries.lean)
          hint = the error class the implementation returned ("gas" ⇒ the Go map iteration
                 visited the BTM entry before any unbalanced asset; anything else ⇒ after):
                 it resolves the ONLY nondeterminism of ValidateTx, the order of `range parity`.
    op:   reset | reset-batch <n>   → ok   (the next n tx lines are the members of one ValidateTxs batch)
    out:  ok <BTMValue> <GasLeft> <GasUsed> <StorageGas> fee=<Fee()>   |   err <class> fee=<Fee()> -/
 namespace BytomModel.Drv.C01
-open BytomModel.Drv BytomModel.Model.TxValidate
+open BytomModel.Drv BytomModel.Model.TxValidate BytomModel.Model.TxEntries
 
 def parseIn (s : String) : Option Input :=
   match s.splitOn ":" with
@@ -30,7 +34,24 @@ def parseOut (s : String) : Option Output :=
     pure { kind := kind, asset := ← a.toNat?, amount := ← amt.toNat?, voteLen := ← vl.toNat? }
   | _ => none
 
-def parseTx (w : List String) : Option (Ctx × String × Tx) :=
+def parseMut : List String → Option (Option Mut)
+  | [] => some none
+  | ["M", "pv", i, a, v] => do pure (some (.pv (← i.toNat?) (← a.toNat?, ← v.toNat?)))
+  | ["M", "wd", i, a, v] => do pure (some (.wd (← i.toNat?) (← a.toNat?, ← v.toNat?)))
+  | ["M", "wdpos", i, p] => do pure (some (.wdpos (← i.toNat?) (← p.toNat?)))
+  | ["M", "wdref", i] => do pure (some (.wdref (← i.toNat?)))
+  | ["M", "ms", i, a, v] => do pure (some (.ms (← i.toNat?) (← a.toNat?, ← v.toNat?)))
+  | ["M", "mspos", i, p] => do pure (some (.mspos (← i.toNat?) (← p.toNat?)))
+  | ["M", "msref", i, r] => do pure (some (.msref (← i.toNat?) (← r.toNat?)))
+  | ["M", "ov", j, a, v] => do pure (some (.ov (← j.toNat?) (← a.toNat?, ← v.toNat?)))
+  | ["M", "srcpos", j, p] => do pure (some (.srcpos (← j.toNat?) (← p.toNat?)))
+  | ["M", "srcref", j] => do pure (some (.srcref (← j.toNat?)))
+  | ["M", "dv", j, a, v] => do pure (some (.dv (← j.toNat?) (← a.toNat?, ← v.toNat?)))
+  | ["M", "dstpos", j, p] => do pure (some (.dstpos (← j.toNat?) (← p.toNat?)))
+  | ["M", "dstref", j, r] => do pure (some (.dstref (← j.toNat?) (← r.toNat?)))
+  | _ => none
+
+def parseTx (w : List String) : Option (Ctx × String × Tx × Option Mut) :=
   match w with
   | "tx" :: bv :: bh :: first :: ver :: size :: tr :: hint :: nin :: rest => do
     let nin ← nin.toNat?
@@ -38,12 +59,18 @@ def parseTx (w : List String) : Option (Ctx × String × Tx) :=
     match rest.drop nin with
     | nout :: rest2 =>
       let nout ← nout.toNat?
-      if ins.length ≠ nin ∨ rest2.length ≠ nout then none else
-      let outs ← rest2.mapM parseOut
+      if ins.length ≠ nin ∨ rest2.length < nout then none else
+      let outs ← (rest2.take nout).mapM parseOut
+      let mu ← parseMut (rest2.drop nout)
       pure ({ blockVersion := ← bv.toNat?, blockHeight := ← bh.toNat?, first := first == "1" }, hint,
-            { version := ← ver.toNat?, size := ← size.toNat?, timeRange := ← tr.toNat?, inputs := ins, outputs := outs })
+            { version := ← ver.toNat?, size := ← size.toNat?, timeRange := ← tr.toNat?, inputs := ins, outputs := outs }, mu)
     | [] => none
   | _ => none
+
+def showRes (r : Except Err Gas) (f : Nat) : String :=
+  match r with
+  | .ok g => s!"ok {g.btmValue} {g.gasLeft} {g.gasUsed} {g.storageGas} fee={f}"
+  | .error e => s!"err {e.name} fee={f}"
 
 def step (_ : Unit) (line : String) : Unit × String :=
   -- `reset` / `reset-batch <n>`: cut points of the stream; the following n tx lines of a batch were
@@ -51,12 +78,16 @@ def step (_ : Unit) (line : String) : Unit × String :=
   if line.startsWith "reset" then ((), "ok") else
   let out := match parseTx (words line) with
     | none => "bad-op"
-    | some (ctx, hint, tx) =>
+    | some (ctx, hint, tx, mu) =>
       let order := if hint == "gas" then btmFirst else btmLast
       let f := fee tx
-      match validateTx ctx order tx with
-      | .ok g => s!"ok {g.btmValue} {g.gasLeft} {g.gasUsed} {g.storageGas} fee={f}"
-      | .error e => s!"err {e.name} fee={f}"
+      let flat := showRes (validateTx ctx order tx) f
+      let viaEntries := showRes (validateE ctx order (ofTx tx)) f
+      -- the MapTx-level model and the entry-level model must agree on every unmutated graph
+      if flat != viaEntries then s!"model-layers-differ flat[{flat}] entries[{viaEntries}]" else
+      match mu with
+      | none => flat
+      | some m => showRes (validateE ctx order (applyMut (ofTx tx) m)) f
   ((), out)
 
 def run (_args : List String) : IO Unit := lineLoop () step
